@@ -31,16 +31,42 @@ type Impl struct {
 	lim    limiter.RateLimiter
 	shards int
 	api    *apiSim // API-backed store mode only
+	w      *wire   // wire mode only
 }
 
-func newImpl(shards int, store string) *Impl {
+func newImpl(shards int, store string, wireMode bool) *Impl {
+	var im *Impl
 	if store == "k8s" {
 		api := newAPISim()
 		g := limiter.VerifC18NewWith("verif-limiter", shards, "k8s", api.client())
-		return &Impl{g: g, lim: g.VerifC18Limiter(), shards: shards, api: api}
+		im = &Impl{g: g, lim: g.VerifC18Limiter(), shards: shards, api: api}
+	} else {
+		g := limiter.VerifC18New("verif-limiter", shards)
+		im = &Impl{g: g, lim: g.VerifC18Limiter(), shards: shards}
 	}
-	g := limiter.VerifC18New("verif-limiter", shards)
-	return &Impl{g: g, lim: g.VerifC18Limiter(), shards: shards}
+	if wireMode {
+		w, err := newWire(im.lim)
+		if err != nil {
+			panic(err)
+		}
+		im.w = w
+	}
+	return im
+}
+
+// doAcquire / doReport: the limiter's method, or the same request over the wire.
+func (im *Impl) doAcquire(u string, acq *proxyv1alpha1.RateLimitAcquire) (*proxyv1alpha1.RateLimitAcquire, error) {
+	if im.w != nil {
+		return im.w.acquire(u, acq)
+	}
+	return im.lim.DoAcquire(u, acq)
+}
+
+func (im *Impl) errClass(e error) string {
+	if im.w != nil {
+		return classifyWire(e)
+	}
+	return classify(e)
 }
 
 func i64(v int32) *int64 { x := int64(v); return &x }
@@ -229,6 +255,14 @@ func (im *Impl) apply(op Op) (out OutJ, quota []ItemJ, err error) {
 	u, inst := rig.UnHex(op.U), rig.UnHex(op.I)
 	switch op.Op {
 	case "heartbeat":
+		if im.w != nil {
+			before := time.Now()
+			if e := im.w.heartbeat(inst); e != nil {
+				out = OutJ{K: "err", E: classifyWire(e)}
+			}
+			im.g.VerifC18RedateFresh(before, time.Now(), op.T)
+			break
+		}
 		err = im.g.VerifC18Heartbeat(inst, op.T)
 	case "cleanupTimeout":
 		err = im.g.VerifC18CleanupTimeout(op.Now, slackMs)
@@ -279,9 +313,15 @@ func (im *Impl) apply(op Op) (out OutJ, quota []ItemJ, err error) {
 			}
 			cond.Status.LimitItemStatuses = append(cond.Status.LimitItemStatuses, st)
 		}
-		res, e := im.lim.UpdateRateLimitConditionStatus(u, cond)
+		var res *proxyv1alpha1.RateLimitCondition
+		var e error
+		if im.w != nil {
+			res, e = im.w.report(cond)
+		} else {
+			res, e = im.lim.UpdateRateLimitConditionStatus(u, cond)
+		}
 		if e != nil {
-			out = OutJ{K: "err", E: classify(e)}
+			out = OutJ{K: "err", E: im.errClass(e)}
 			break
 		}
 		out = OutJ{K: "reported", Label: rig.Hex(res.Labels[limiter.RateLimitConditionInstanceLabel])}
@@ -304,9 +344,9 @@ func (im *Impl) apply(op Op) (out OutJ, quota []ItemJ, err error) {
 				}
 			}
 		}
-		res, e := im.lim.DoAcquire(u, acq)
+		res, e := im.doAcquire(u, acq)
 		if e != nil {
-			out = OutJ{K: "err", E: classify(e)}
+			out = OutJ{K: "err", E: im.errClass(e)}
 			break
 		}
 		out = OutJ{K: "acquired", Rs: []AcqRes{}}
@@ -364,7 +404,7 @@ func (im *Impl) apply(op Op) (out OutJ, quota []ItemJ, err error) {
 				for atomic.LoadInt32(&gate) == 0 {
 					runtime.Gosched()
 				}
-				im.lim.DoAcquire(u, acq)
+				im.doAcquire(u, acq)
 			}(k, tok)
 		}
 		// all senders are spinning on the gate before it opens: they enter the limiter together
@@ -399,7 +439,11 @@ func (im *Impl) apply(op Op) (out OutJ, quota []ItemJ, err error) {
 }
 
 // modelOp is the op as the Lean driver reads it.
-func modelOp(op Op, quota []ItemJ, st *[2]int64) map[string]interface{} {
+func modelOp(op Op, quota []ItemJ, st *[2]int64, wireRejected bool) map[string]interface{} {
+	if wireRejected {
+		// refused by the client or the HTTP endpoint before the limiter was asked: nothing may have been recorded
+		return map[string]interface{}{"op": "wireRejected"}
+	}
 	m := map[string]interface{}{"op": op.Op}
 	switch op.Op {
 	case "heartbeat":
